@@ -55,3 +55,47 @@ Proof. exact tie_resize_op. Qed.
 Check C02_source_resize_op : forall v c r, ZW (vterm v) -> 1 <= c -> 1 <= r -> match w_resize Om (zabs (vterm v)) (wabs (vterm v)) (Z.of_nat c) (Z.of_nat r) with Some (s, w, ok, _) => ok = true /\ stepM v (Resize c r) = vt_flush (v <| vterm := zput s w |>) | None => exists e, stepM v (Resize c r) = Panic e end.
 Print Assumptions C02_source_resize_op.
 
+From Avt Require Import Gen.AccFns Proofs.BufTie Proofs.ParserFnsTie Proofs.AccTie.
+(** SOURCE TIE BY PROOF (translate/acc2coq.py -> Gen/AccFns.v): the public constructors and accessors are REGENERATED from the Rust source on every run and proved equal to the model's observation functions - the functions through which every theorem of this property reads the terminal *)
+(** Vt::new (through Builder and Terminal::new, field by field); Rust underflows in `rows - 1` for rows = 0 - the side condition of the builder contract *)
+Theorem C02_source_vt_new : forall c r, g_vt_new c r =~ okM (1 <=? r) (vt_new c r None).
+Proof. exact tie_vt_new. Qed.
+Check C02_source_vt_new : forall c r, g_vt_new c r =~ okM (1 <=? r) (vt_new c r None).
+Print Assumptions C02_source_vt_new.
+
+(** Builder::build with the scrollback limit *)
+Theorem C02_source_build : forall b, g_builder_build b =~ okM (1 <=? snd (b_size b)) (vt_new (fst (b_size b)) (snd (b_size b)) (option_map N.of_nat (b_scrollback_limit b))).
+Proof. exact tie_builder_build. Qed.
+Check C02_source_build : forall b, g_builder_build b =~ okM (1 <=? snd (b_size b)) (vt_new (fst (b_size b)) (snd (b_size b)) (option_map N.of_nat (b_scrollback_limit b))).
+Print Assumptions C02_source_build.
+
+(** Vt::view *)
+Theorem C02_source_view : forall v, g_vt_view v =~ vt_view v.
+Proof. exact tie_vt_view. Qed.
+Check C02_source_view : forall v, g_vt_view v =~ vt_view v.
+Print Assumptions C02_source_view.
+
+(** Vt::lines *)
+Theorem C02_source_lines : forall v, g_vt_lines v = Ok (vt_lines v).
+Proof. exact tie_vt_lines. Qed.
+Check C02_source_lines : forall v, g_vt_lines v = Ok (vt_lines v).
+Print Assumptions C02_source_lines.
+
+(** Vt::line(n): panics exactly when the model does *)
+Theorem C02_source_line : forall v n, g_vt_line v n =~ vt_line v n.
+Proof. exact tie_vt_line. Qed.
+Check C02_source_line : forall v n, g_vt_line v n =~ vt_line v n.
+Print Assumptions C02_source_line.
+
+(** Vt::size *)
+Theorem C02_source_size : forall v, g_vt_size v = Ok (vt_size v).
+Proof. exact tie_vt_size. Qed.
+Check C02_source_size : forall v, g_vt_size v = Ok (vt_size v).
+Print Assumptions C02_source_size.
+
+(** Vt::cursor (the stored cursor as is) *)
+Theorem C02_source_cursor : forall v, g_vt_cursor v = Ok (cursor_of (vt_cursor v)).
+Proof. exact tie_vt_cursor. Qed.
+Check C02_source_cursor : forall v, g_vt_cursor v = Ok (cursor_of (vt_cursor v)).
+Print Assumptions C02_source_cursor.
+
